@@ -422,3 +422,67 @@ func (e *Engine) EffectOf(i ssa.Instruction) string {
 	// closures invoked dynamically: treat MakeClosure separately (not an effect by itself)
 	return ""
 }
+
+// callDirectOp: the call instruction's (static or resolved) callee directly performs `ops` on family mod:hx.
+func (e *Engine) callDirectOp(c ssa.CallInstruction, mod, hx, ops string) bool {
+	var cands []*ssa.Function
+	cc := c.Common()
+	if cc.IsInvoke() {
+		cands = e.Implementers(cc.Value.Type(), cc.Method.Name())
+	} else if f := cc.StaticCallee(); f != nil {
+		cands = []*ssa.Function{f}
+	}
+	for _, f := range cands {
+		for _, so := range e.Effects(f) {
+			if !strings.Contains(ops, so.Op) {
+				continue
+			}
+			for id := range so.Fams {
+				if famMatch(id, mod, hx) {
+					return true
+				}
+			}
+		}
+	}
+	return false
+}
+
+// valueReadsFamily: v is a call to a function that directly reads (get/has) family mod:hx and writes nothing.
+func (e *Engine) valueReadsFamily(v ssa.Value, mod, hx string) (*ssa.Call, bool) {
+	v = stripConv(v)
+	if ex, ok := v.(*ssa.Extract); ok {
+		v = ex.Tuple
+	}
+	if u, ok := v.(*ssa.UnOp); ok {
+		v = u.X
+	}
+	if f, ok := v.(*ssa.FieldAddr); ok {
+		v = f.X
+	}
+	if f, ok := v.(*ssa.Field); ok {
+		v = f.X
+	}
+	c, ok := v.(*ssa.Call)
+	if !ok {
+		return nil, false
+	}
+	if !e.callDirectOp(c, mod, hx, "get,has") {
+		return nil, false
+	}
+	return c, true
+}
+
+// isGenesisOrUpgrade: functions that run at genesis / store migration / software upgrade, never from a transaction.
+func isGenesisOrUpgrade(fn *ssa.Function) bool {
+	fn = rootFn(fn)
+	n := fn.Name()
+	p := fnPkgPath(fn)
+	if strings.Contains(n, "Genesis") || strings.Contains(p, "/app/upgrades") || strings.Contains(p, "/migrations") || strings.Contains(p, "/legacy") {
+		return true
+	}
+	// methods of a module's store Migrator type
+	if r := fn.Signature.Recv(); r != nil && strings.HasSuffix(namedTypeName(r.Type()), ".Migrator") {
+		return true
+	}
+	return false
+}
